@@ -183,7 +183,7 @@ func modelSnapshot(env *Env, ops []*OpRec, ci *closeInfo, at int) *snapModel {
 		case "hist":
 			e := get(m.hists, mv)
 			if e.HV == nil && e.HD == nil {
-				fs, amb := firstHistSpec(ops, k)
+				fs, amb := firstHistSpec(ops, ci, k)
 				if amb {
 					m.ambig[k] = true
 				}
@@ -218,7 +218,7 @@ func modelSnapshot(env *Env, ops []*OpRec, ci *closeInfo, at int) *snapModel {
 			}
 			// the histogram that exists under this identity was created by the first
 			// "hist" op on it; later requests with other specs return the same object
-			first, _ := firstHistSpec(ops, k)
+			first, _ := firstHistSpec(ops, ci, k)
 			t := TilingOf(first, env.Prog.Cfg.DefBuckets)
 			if r.Op.K == "recv" && !t.Dur {
 				if i := t.IndexF(f64from(r.Op.F)); i >= 0 {
@@ -238,7 +238,7 @@ func modelSnapshot(env *Env, ops []*OpRec, ci *closeInfo, at int) *snapModel {
 // under an identity: the one of the first request. If another request with a
 // different specification overlapped the first one, which of them created the
 // histogram depends on the schedule (ambiguous).
-func firstHistSpec(ops []*OpRec, key string) (*BucketSpec, bool) {
+func firstHistSpec(ops []*OpRec, ci *closeInfo, key string) (*BucketSpec, bool) {
 	var first *OpRec
 	var spec *BucketSpec
 	ambiguous := false
@@ -249,6 +249,12 @@ func firstHistSpec(ops []*OpRec, key string) (*BucketSpec, bool) {
 		mv, _ := r.Obj.(*metricVar)
 		if mv == nil || idKey(mv.FullName, mv.Tags) != key {
 			continue
+		}
+		switch ci.liveness(mv.scope) {
+		case inertVar:
+			continue // requested from an inert scope: creates nothing
+		case maybe:
+			ambiguous = true
 		}
 		if first == nil {
 			first, spec = r, mv.spec
